@@ -21,6 +21,8 @@ fn gen_cfg() -> GenCfg {
         // a flush hit by a transient fault and repeated: the repeated flush's success is a flush point like any other
         (K::FlushRetry, 4),
         (K::SetTimes, 4),
+        // the handle replaced by a clone of itself (what the application does with File::clone)
+        (K::CloneSwap, 6),
         (K::Seek, 5),
         (K::Flush, 10),
         (K::CloseFile, 8),
